@@ -203,6 +203,7 @@ type Exec struct {
 	Trace      bool
 	loops      map[*ssa.Function]map[int]int // header block index -> ordinal
 	DryRun     bool
+	boxed      map[string]bool
 	NamedCells bool // heap-allocated named locals get their source name as heap key (closure cells)
 	unsupported []string
 }
@@ -401,7 +402,19 @@ func (x *Exec) termOf(st *State, v SVal) string {
 		if v.GoT != nil {
 			name = "box!" + typeShort(v.GoT)
 		}
-		return x.D.app(name, args, sorts, "U")
+		u := x.D.app(name, args, sorts, "U")
+		// ground projection facts: proj_i(box(f0..fn)) == f_i
+		if st != nil && v.K == KStruct && v.GoT != nil {
+			if s, ok := isStruct(v.GoT); ok {
+				for i := range v.Elems {
+					if i < s.NumFields() {
+						p := x.D.app("proj!"+typeShort(v.GoT)+"!"+s.Field(i).Name(), []string{u}, []string{"U"}, sorts[i])
+						st.assume(eq(p, args[i]))
+					}
+				}
+			}
+		}
+		return u
 	case KSlice:
 		arr := v.Snap
 		if arr == "" && st != nil {
